@@ -31,8 +31,8 @@ CLAIMS = {
             "another fixed port, a missing Dublin marker or a foreign ICMP id is rejected; (b) dispatch puts those fields "
             "where the contract says (C11 harnesses); (c) the extract functions read them from there for every quotation of "
             "symbolic content and length up to the bound.",
-            "Quotation length bound N = 48/64 bytes (IPv4 IHL 5..15), IPv6 40+8..N; composition across the contract is by "
-            "reading; unprivileged kernel-built headers are outside the claim."),
+            "Quotation length bound N = 48/64 bytes (IPv4 IHL 5..15), IPv6 48..64/80; composition across the contract is by "
+            "reading; the RFC 4884 extension split is C14; unprivileged kernel-built headers are outside the claim."),
     "C03": ("For every response (5 kinds x 3 protocol payloads, all fields symbolic), configuration and window the real "
             "validate / StrategyResponse::from / check_trace_id / in_round accept exactly the responses naming this tracer "
             "and a sequence inside the current round; a response for a slot that is already Complete, never sent, Skipped or "
@@ -43,11 +43,14 @@ CLAIMS = {
     "C04": ("No panic, overflow, out-of-bounds or non-terminating loop for: every accessor of every packet view over an "
             "arbitrary buffer (N = 64 quick / 160 thorough) of at least the minimum size; extension_splitter::split for every "
             "length 0..=2040 x every body length 0..=1024; the object and label-stack iterators over any <= 32-byte buffer; "
-            "the real receive path Ipv4/Ipv6::recv_icmp_probe over a socket returning arbitrary bytes (N = 48/64) for every "
-            "protocol; ProtocolStrategyResponse::from on arbitrary responses.",
+            "the real receive path Ipv4/Ipv6::recv_icmp_probe over a socket returning arbitrary bytes (every length up to N = 72 "
+            "quick / 96 thorough) for every protocol with extension parsing off; ProtocolStrategyResponse::from and "
+            "complete_probe on arbitrary responses.",
             "Receive-path bound is N bytes, not the full 1024-byte buffer (beyond N only split and the checksum loop depend on "
-            "length: both covered for the full range). Extensions::try_from (flat_map + collect) is outside reach; its "
-            "no-panic argument is the composition of the iterator guarantees with the accessor harnesses."),
+            "length: both covered for the full range). The extension-enabled receive path and Extensions::try_from "
+            "(flat_map + collect) are outside reach; their no-panic argument is the composition of split (all lengths), the "
+            "iterator guarantees and the accessor harnesses. In the UDP/IPv4 receive harness calc_udp_checksum is cut "
+            "(decided for every size by its own harness)."),
     "C06": ("One send_request step from every INV state (ttl, farthest-answered ttl, target distance, target-found, "
             "first/max ttl, max-inflight all symbolic) against a network answering with an arbitrary outcome: a probe goes "
             "out only inside the discipline (ttl = the state's counter, <= max-ttl, not after the target answered, <= known "
@@ -59,7 +62,8 @@ CLAIMS = {
             "Dublin/IPv6 payload length fits the buffer; after advance_round no sequence of the round just ended is inside "
             "the new window; the 512-slot budget ends in InsufficientCapacity, never an out-of-bounds slot.",
             "Separation has two recorded findings (F7: initial > 63999; F8: Dublin/IPv6 regime) decided by region-twin "
-            "harnesses. Base case TracerState::new |= INV is in the thorough tier."),
+            "harnesses. next_probe is decided for all window positions; reissue_probe at seven representative positions in "
+            "the quick tier (all positions and the base case TracerState::new |= INV in the thorough tier)."),
     "C08": ("One update_round call with the clock reading, round start, last-response time and the three durations all "
             "symbolic (seconds < 2^32, clock may step backwards): published iff the timing policy says, reason tells which, "
             "round id +1, next round starts at the next clock reading, otherwise nothing changes.",
